@@ -98,12 +98,17 @@ class Twin:
 		origin.count = origin.count + 1
 		self.count = origin.count
 
+def build_shape(count: int) -> Shape:
+	return Shape(count, 'b')
+
 def build(amount: int, tint: Color) -> int:
 	box = Box(amount, 3)
+	other: Shape = Box(amount, 1)
+	made = build_shape(amount)
 	twin = Twin(box)
 	shape = Shape.unit()
 	if tint == Color.Red:
-		return box.volume() + shape.size + twin.count
+		return box.volume() + shape.size + twin.count + other.count + made.count
 	return box.depth + Color.Green.value
 '''
 
@@ -338,6 +343,13 @@ def run(ctx):
                 if fresh in ('name', 'value') and ident in enum_members(sources):
                     continue   # reserved by Python's Enum itself
                 tasks.append((pname, sources, base, {ident: fresh}, role))
+            # names related to OTHER identifiers of the program (classes and functions): proper prefix / extension
+            for o in idents[pname]:
+                if o == ident or role_of(sources, o) not in ('class', 'function'):
+                    continue
+                for fresh in (o + 'x', o[:-1] if len(o) > 2 else o + 'y', o[:max(2, len(o) // 2)]):
+                    if fresh not in all_names and fresh not in RESERVED and fresh.isidentifier() and fresh != ident:
+                        tasks.append((pname, sources, base, {ident: fresh}, role))
             # names related to the identifier itself: prefix / suffix / embedded
             for fresh in (ident + '_', ident[:-1] if len(ident) > 2 else ident + 'q', 'q' + ident, ident + '__' + ident, ident.upper() if ident.upper() != ident else ident.lower()):
                 if fresh not in all_names and fresh not in RESERVED and fresh.isidentifier():
@@ -363,7 +375,7 @@ def run(ctx):
     return {
         'evaluations': len(tasks),
         'distinct_nontrivial': len(tasks),
-        'rule': f'programs {list(PROGRAMS)} (functions/locals/params/closures/lambdas/loops/comprehensions/except; classes/fields/methods/property/classmethod/inheritance/enum; two modules with imports); every user identifier ({ {k: len(v) for k, v in idents.items()} }) x fresh names {FRESH_Q} + names derived from the identifier itself (suffix _, truncated, prefixed, doubled with __, case-flipped); thorough: every swap of two identifiers and simultaneous pairs from {FRESH_PAIRS[:4]}; each renaming is distinct by construction',
+        'rule': f'programs {list(PROGRAMS)} (functions/locals/params/closures/lambdas/loops/comprehensions/except; classes/fields/methods/property/classmethod/inheritance/enum; two modules with imports); every user identifier ({ {k: len(v) for k, v in idents.items()} }) x fresh names {FRESH_Q} + names derived from the identifier itself (suffix _, truncated, prefixed, doubled with __, case-flipped) + proper prefixes / extensions of every other class or function name of the program; thorough: every swap of two identifiers and simultaneous pairs from {FRESH_PAIRS[:4]}; each renaming is distinct by construction',
         'samples': [t[3] for t in tasks[:3]] + [t[3] for t in tasks[-3:]],
         'accepted_and_compared': ok,
         'identifiers': idents,
